@@ -1341,6 +1341,10 @@ impl Options {
         } else {
             digits
         };
+        // The digit writers emit all the significant digits before they are
+        // truncated to `max_significant_digits`, and the decimal writer needs
+        // room for a whole `u64` to do so.
+        let digits = max!(digits, u64::FORMATTED_SIZE_DECIMAL);
         count += digits;
 
         // we need to make sure we have at least enough room for the
